@@ -113,6 +113,7 @@ structure FwListFx (iss : Seq) (t : Tcb) (gs : List Segment) (t' : Tcb) : Prop w
   one : t'.outgoing.oneshot = t.outgoing.oneshot
   nxt : t'.snd.nxt = t.snd.nxt
   mtu : t'.mtu = t.mtu
+  iss : t'.snd.iss = t.snd.iss
   lp : t'.localPort = t.localPort
   rp : t'.remotePort = t.remotePort
   st : t'.state = .FinWait1 ∨ t'.state = .FinWait2
@@ -127,7 +128,7 @@ theorem ackList_fwx (iss : Seq) (N : Nat) (hN : N < 2147483648) (gs : List Segme
   induction gs with
   | nil =>
     intro t hst hw hheap htext hiss hsent hu hall hq
-    exact ⟨t, rfl, by simp [maxAck], fun tr htr => ⟨htr, hq tr htr⟩, rfl, rfl, rfl, rfl, rfl, rfl, rfl, rfl, hst,
+    exact ⟨t, rfl, by simp [maxAck], fun tr htr => ⟨htr, hq tr htr⟩, rfl, rfl, rfl, rfl, rfl, rfl, rfl, rfl, rfl, hst,
       fun h => (h rfl).elim⟩
   | cons g rest ih =>
     intro t hst hw hheap htext hiss hsent hu hall hq
@@ -164,7 +165,7 @@ theorem ackList_fwx (iss : Seq) (N : Nat) (hN : N < 2147483648) (gs : List Segme
       (fun tr htr => (hq2 tr htr).2)
     refine ⟨t', by simp only [arriveList, e2]; exact e', ?_, fun tr htr => ?_, by rw [lf.rcv, fx.rcv],
       by rw [lf.inc, fx.inc], by rw [lf.otext, fx.otext], by rw [lf.one, fx.one], by rw [lf.nxt, fx.nxt],
-      by rw [lf.mtu, fx.mtu], by rw [lf.lp, fx.lp], by rw [lf.rp, fx.rp], lf.st, fun _ hd => ?_⟩
+      by rw [lf.mtu, fx.mtu], by rw [lf.iss, fx.iss], by rw [lf.lp, fx.lp], by rw [lf.rp, fx.rp], lf.st, fun _ hd => ?_⟩
     · rw [lf.una, hu2]
       simp only [maxAck]
       omega
